@@ -1260,6 +1260,18 @@ func (p *Policy) validURL(rawurl string) (string, bool) {
 			return "", false
 		}
 
+		// For http, https, ftp, ws and wss a URL without "//" and a host has no
+		// single meaning: net/url reads "https:example.com/x" as opaque and
+		// "https:/example.com/x" as a path, a browser reads both as the host
+		// example.com on a page of another scheme and as a reference relative
+		// to the page on a page of the same scheme. Neither the scheme
+		// allowlist, a custom check nor the relative-URL switch can judge
+		// such a value, so it is not valid.
+		if u.Host == "" && (u.Scheme == "http" || u.Scheme == "https" ||
+			u.Scheme == "ftp" || u.Scheme == "ws" || u.Scheme == "wss") {
+			return "", false
+		}
+
 		if u.Scheme != "" {
 			urlPolicies, ok := p.allowURLSchemes[u.Scheme]
 			if !ok {
@@ -1276,25 +1288,8 @@ func (p *Policy) validURL(rawurl string) (string, bool) {
 				return u.String(), true
 			}
 
-			// A custom check approves the URL a browser will use. For http,
-			// https, ftp, ws and wss a browser takes whatever follows the
-			// colon, less any leading slashes and backslashes, as the start of
-			// the authority: "https:internal.example/x" and
-			// "https:\\internal.example/x" name the host internal.example,
-			// where net/url sees an opaque or path-only URL without host.
-			judged := u
-			if u.Host == "" && (u.Scheme == "http" || u.Scheme == "https" ||
-				u.Scheme == "ftp" || u.Scheme == "ws" || u.Scheme == "wss") {
-				rest := strings.Replace(rawurl[len(u.Scheme)+1:], `\`, "/", -1)
-				asBrowser, err := url.Parse(u.Scheme + "://" + strings.TrimLeft(rest, "/"))
-				if err != nil {
-					return "", false
-				}
-				judged = asBrowser
-			}
-
 			for _, urlPolicy := range urlPolicies {
-				if urlPolicy(judged) {
+				if urlPolicy(u) {
 					return u.String(), true
 				}
 			}
